@@ -21,6 +21,8 @@ def use_form(spec, t):
     if t.startswith('*'):
         return '*' + qual(spec, t[1:])
     ty = spec['types'][t]
+    if ty['form'] == 'mapof':
+        return 'map[string]' + use_form(spec, ty['elem'])
     if ty['form'] == 'ptr' or ty['form'] == 'fstruct':
         return '*' + qual(spec, t)
     return qual(spec, t)
@@ -82,7 +84,7 @@ def abstract(spec, which=1):
     inj = spec['injector'] if which == 1 else spec['injector2']
     forms = {}
     for t, ty in spec['types'].items():
-        forms[t] = ty['form']
+        forms[t] = 'ptr' if ty['form'] == 'mapof' else ty['form']
         if ty['form'] == 'bstruct':
             forms['*' + t] = 'ptr'
     return {'id': spec['id'] + ('' if which == 1 else '#2'), 'ret': inj['ret'], 'args': list(inj['args']), 'haserr': inj['haserr'], 'forms': forms, 'providers': provs}
@@ -116,6 +118,12 @@ func TermOf(v any) string {
 	}
 	if rv := reflect.ValueOf(v); rv.Kind() == reflect.Ptr && rv.IsNil() {
 		return "nil"
+	} else if rv.Kind() == reflect.Map {
+		e := rv.MapIndex(reflect.ValueOf("t"))
+		if !e.IsValid() {
+			return "nil"
+		}
+		return TermOf(e.Interface())
 	}
 	if t, ok := v.(interface{ GetTerm() string }); ok {
 		return t.GetTerm()
@@ -130,6 +138,9 @@ def emit_type(spec, name, ty, pkg):
     name = ty.get('goname', name)
     out = []
     form = ty['form']
+    if form == 'mapof':
+        et = use_form_in(spec, ty['elem'], pkg)
+        return 'func Mk%s(term string) map[string]%s { return map[string]%s{"t": %s(term)} }\n' % (name, et, et, mk_name(spec, ty['elem'], pkg))
     if form == 'iface':
         out.append('type %s interface{ GetTerm() string }\n' % name)
         return ''.join(out)
@@ -162,6 +173,8 @@ def use_form_in(spec, t, pkg):
     if t.startswith('*'):
         return '*' + qual(spec, t[1:], pkg)
     ty = spec['types'][t]
+    if ty['form'] == 'mapof':
+        return 'map[string]' + use_form_in(spec, ty['elem'], pkg)
     star = '*' if ty['form'] in ('ptr', 'fstruct') else ''
     return star + qual(spec, t, pkg)
 
@@ -320,8 +333,12 @@ def main_go(spec, params, injname=None):
         star = p.startswith('*')
         base = p.lstrip('*')
         tname = None
+        exact = [key for key in spec['types'] if spec['types'][key]['form'] == 'mapof' and use_form(spec, key) == p]
+        if exact:
+            args.append(mk_name(spec, exact[0], '') + '("arg:%s")' % exact[0])
+            continue
         for key, tt in spec['types'].items():
-            if qual(spec, key) == base:
+            if tt['form'] != 'mapof' and qual(spec, key) == base:
                 tname = key
         ty = spec['types'].get(tname) if tname else None
         if ty is None:
@@ -428,6 +445,7 @@ def random_spec(rng, sid, nmin=3, nmax=6, external=False, decoy=False, struct_va
     alias = {'a/util': 'util', 'b/util': 'butil', 'c/vals': 'vals'} if external else {}
     nT = [0]
     twin_done = [False]
+    map_done = [False]
 
     def new_type(form=None, pkg=''):
         name = 'T%d' % nT[0]
@@ -497,12 +515,26 @@ def random_spec(rng, sid, nmin=3, nmax=6, external=False, decoy=False, struct_va
                 elems.append({'kind': 'fieldsof', 'type': key, 'fields': which})
                 produced.append(f1 if which == ['Fa'] else f2)
             continue
+        if external and not map_done[0] and i >= 1:
+            # a map whose ELEMENT type lives in another package, provided by a function and used as a struct field
+            map_done[0] = True
+            et = new_type('ptr', pkg='a/util')
+            mname = 'M%d' % nT[0]
+            nT[0] += 1
+            types[mname] = {'form': 'mapof', 'elem': et, 'pkg': ''}
+            funcs.append({'name': 'Make' + mname, 'requires': [], 'provides': mname, 'fallible': False, 'pkg': ''})
+            elems.append({'kind': 'func', 'name': 'Make' + mname})
+            produced.append(mname)
+            continue
         if r < 0.36 and len(produced) >= 2:
             # a struct built by wire.Struct from what exists
             sname = 'B%d' % nS
             nS += 1
             k = rng.randint(2, min(3, len(produced)))
             ftypes = rng.sample(produced, k)
+            maps_ = [t_ for t_ in produced if not t_.startswith('*') and types.get(t_, {}).get('form') == 'mapof']
+            if maps_ and maps_[0] not in ftypes:
+                ftypes[0] = maps_[0]
             fields = [['F%d' % j, ft] for j, ft in enumerate(ftypes)]
             listed = ['*'] if rng.random() < 0.5 else [f[0] for f in fields[: rng.randint(1, len(fields))]]
             if listed == ['*'] and rng.random() < 0.5:
